@@ -33,8 +33,29 @@ def main():
     if pid not in table:
         print(f"no check for {pid}", file=sys.stderr)
         return 2
+    t0 = time.time()
     try:
         return table[pid](tier, replay)
+    except EngineDied as e:
+        # a hang / memory exhaustion of the code under test is data -- provided it reproduces on the instance alone
+        rp = reproduce_engine_death(pid, tier, e)
+        if rp is None:
+            print(f"TOOL-ERROR: {e} (not reproducible on the last instance alone)", file=sys.stderr)
+            return 2
+        tag = f"{pid} library-hangs-or-exhausts-memory"
+        d = os.path.join(REPLAYS, pid)
+        os.makedirs(d, exist_ok=True)
+        path = os.path.join(d, f"{tier}_died.json")
+        json.dump({"property": pid, "tag": tag, "description": str(e), "replay": rp}, open(path, "w"), indent=1)
+        ev = {"property_id": pid, "tier": tier, "seed": SEED, "level": "model_checking",
+              "coverage": {"evaluations": 1, "distinct_nontrivial": 1, "states": 0, "transitions": 0, "traces_validated_against_impl": 0,
+                           "rule": "the check stopped at the first engine that was killed / timed out; the instance it was working on was run again alone, twice, and the engine died both times",
+                           "samples": [rp]},
+              "assumptions": ["memory limit 12 GB and 90 s per isolated run"], "wall_s": round(time.time() - t0, 1), "violations": 1}
+        json.dump(ev, open(os.path.join(EVID, f"{pid}.json"), "w"), indent=1)
+        print(f"VIOLATION property={pid} replay={path}")
+        print(f"  {tag}: {e}", file=sys.stderr)
+        return 1
     except ToolError as e:
         print(f"TOOL-ERROR: {e}", file=sys.stderr)
         return 2
